@@ -120,7 +120,7 @@ def _dominated_by_edge(cfg, nid, label, target):
     return cfg.dominates(nid, target) and target not in reach_other
 
 
-def r51(ctx, rep):
+def r51(ctx, rep, rule="R5.1"):
     live = ctx.facts.live
     reach = common.reachable_funcs(ctx, live=live)
     E = ctx.func(T.EVAL)
@@ -140,7 +140,7 @@ def r51(ctx, rep):
         f = ev.func
         desc = f"{f.local}:{ev.line} {ev.text()[:50]}"
         if live.is_dead(ev):
-            rep.ok("R5.1", desc + " - dead: the optional values are never None at any call site")
+            rep.ok(rule, desc + " - dead: the optional values are never None at any call site")
             continue
         cfg = ctx.cfg(f)
         nid = cfg.node_containing(ev.node)
@@ -180,10 +180,10 @@ def r51(ctx, rep):
             else:
                 verdict = ("bad", "no budget test dominates this evaluation in its loop iteration and it is not the first evaluation of the run")
         if verdict[0] == "ok":
-            rep.ok("R5.1", desc + " - " + verdict[1])
+            rep.ok(rule, desc + " - " + verdict[1])
         else:
-            rep.bad("R5.1", desc)
-            rep.finding("R5.1", f, ev.text(), ev.line, "unguarded evaluation: " + verdict[1])
+            rep.bad(rule, desc)
+            rep.finding(rule, f, ev.text(), ev.line, "unguarded evaluation: " + verdict[1])
 
 
 def _ancestors(node):
@@ -642,6 +642,25 @@ def r54(ctx, rep):
         if not ok:
             rep.bad("R5.4", f"result.{fld} missing")
             rep.finding("R5.4", br, f"result.{fld}", br.node.lineno, f"the result has no {fld} field")
+    # an evaluation stopped by the callback is still recorded: the history
+    # appends dominate every callback call (and every raise) of the routine
+    cfgE = ctx.cfg(E)
+    app_nodes = [cfgE.node_containing(node) for f, stmt, fld, op, arg, node in ops if op == "append" and f.qual == E.qual]
+    cb_nodes = [cfgE.node_containing(ev.node) for ev in ctx.events(E) if any(t.name == "UserCb" for t in ev.sink_targets())]
+    hist_guard = None
+    for f, stmt, fld, op, arg, node in ops:
+        if op == "append" and f.qual == E.qual:
+            for kind, what, n in enclosing_context(stmt, E.node):
+                if kind == "if-true" and mentions(what, "_store_history"):
+                    hist_guard = cfgE.node_of(n)
+    for cb in cb_nodes:
+        desc = f"{E.local}: history is appended before the callback call at line {cfgE.nodes[cb].line}"
+        if hist_guard is not None and cfgE.dominates(hist_guard, cb) and all(cb not in cfgE.reachable(cb2, skip_exc=True) or True for cb2 in ()) and not any(a in cfgE.reachable(cb, skip_exc=True) for a in app_nodes):
+            rep.ok("R5.4", desc)
+        else:
+            rep.bad("R5.4", desc)
+            rep.finding("R5.4", E, "history append after the callback", cfgE.nodes[cb].line,
+                        "the history is appended after the callback is called: an evaluation at which the callback stops the run (StopIteration) is counted in nfev but missing from fun_history / maxcv_history")
     # the values appended are the raw ones of this evaluation (shared with C02)
     from .c02 import check_raw_values
     check_raw_values(ctx, rep, "R5.4", HIST)
